@@ -212,6 +212,17 @@ func runC15(e *emitter, tier string, seed uint64) {
 					os.Chtimes(full, before.mtime[tgt], before.mtime[tgt])
 				}
 			}
+			// a template that cannot be generated has no correct generation: its sibling, if any, must not be newer
+			for p := range before.content {
+				if _, ok := gen[p]; ok || !strings.HasSuffix(p, ".templ") {
+					continue
+				}
+				tgt := strings.TrimSuffix(p, ".templ") + "_templ.go"
+				if _, ok := before.content[tgt]; ok && !before.mtime[tgt].Before(before.mtime[p]) {
+					older := before.mtime[p].Add(-time.Hour)
+					os.Chtimes(filepath.Join(dir, filepath.FromSlash(tgt)), older, older)
+				}
+			}
 			before = c15Snapshot(dir)
 		}
 		args := []string{"generate", "-path", dir, "-w", fmt.Sprint(workers), fmt.Sprintf("-include-version=%v", ver), "-log-level", "error"}
